@@ -306,6 +306,10 @@ def command(rng):
 def gen_fuzz(rng):
     cfg = {"log": rng.choice(["off", "off", "info", "debug"]), "g90e": rng.random() < 0.4,
            "eol": rng.choice(["\n", "\n", "\r\n"]), "settings": {}, "profile": "C09"}
+    if rng.random() < 0.3:
+        from .. import gen as _gen
+        cfg["settings"] = {"enteringExcludedRegionGcode": _gen.rand_script(rng, "ENTER"),
+                           "exitingExcludedRegionGcode": _gen.rand_script(rng, "EXIT")}
     ops = []
     nreg = [0]
 
